@@ -39,7 +39,7 @@ PANIC_REVIEWED = {
     ('schema::safe::check_for_cycles::check_for_cycles', 'index'):
         (1, 'checked_nodes[idx] with idx from enumerate() over a vector of the same length'),
     ('schema::safe::check_for_cycles::check_no_zero_sized_cycle_inner', 'index'):
-        (7, 'unchecked indexing by resolved keys: only reachable from from_str (WHOCALLS), where every key is a valid index'),
+        (8, 'unchecked indexing by resolved keys: only reachable from from_str (WHOCALLS), where every key is a valid index'),
     ('schema::safe::check_for_cycles::check_no_zero_sized_cycle_inner', 'panic'):
         (1, 'unreachable!: callers only pass record nodes'),
     ('schema::safe::parsing::from_str::{closure#1}', 'index'):
